@@ -210,3 +210,30 @@ func TestFindingF11PreserveExpiryEvent(t *testing.T) {
 	require.Equal(t, int64(2000000000), findingReadRow(t, c, "k").exp)
 	require.Equal(t, uint32(2000000000), e.Expiry, "the event must carry the expiry in force")
 }
+
+// F12 [C14,C08,C20] SetWithMeta stores a relative expiry un-converted and then panics after the commit ("expiry isn't absolute").
+func TestFindingF12SetWithMetaRelativeExpiry(t *testing.T) {
+	_, c := findingBucket(t)
+	var panicked interface{}
+	func() {
+		defer func() { panicked = recover() }()
+		err := c.SetWithMeta(context.Background(), "k", 0, 12345, 100, nil, []byte(`{"v":1}`), sgbucket.FeedDataTypeJSON)
+		require.NoError(t, err)
+	}()
+	require.Nil(t, panicked, "SetWithMeta must not panic after committing")
+	r := findingReadRow(t, c, "k")
+	require.True(t, r.present)
+	require.Greater(t, r.exp, int64(30*24*3600), "an offset expiry is stored as an absolute time")
+}
+
+// K1 (open, C12) SetWithMeta does not advance the collection's lastCas: the view index is not refreshed.
+func TestFindingK1SetWithMetaViewStale(t *testing.T) {
+	_, c := findingBucket(t)
+	require.NoError(t, c.SetRaw("seed", 0, nil, []byte(`{"v":1}`)))
+	before, err := c.getLastCas(c.db())
+	require.NoError(t, err)
+	require.NoError(t, c.SetWithMeta(context.Background(), "m", 0, before+1000, 0, nil, []byte(`{"v":2}`), sgbucket.FeedDataTypeJSON))
+	after, err := c.getLastCas(c.db())
+	require.NoError(t, err)
+	require.GreaterOrEqual(t, after, before+1000, "the collection's high-water mark must cover every stored CAS")
+}
